@@ -77,6 +77,8 @@ fn vsup_selftest_peek() {
     assert!(!r.has_lead);
     let r = peek(&format_args!("{e}: [E10] x {y}"));
     assert!(!r.has_lead);
+    let r = peek(&format_args!("{x:#X}: [E59] TDT with packet done marked the end of a readout frame, but a start of readout frame was never seen (TDH with continuation = 0) -- a literal piece longer than 127 bytes"));
+    assert!(r.has_lead && r.lead == x && r.nlit == 8 && &r.lit == b": [E59] ");
     let r = peek(&format_args!("{x:#x}: [E100] lower-case hex is not the documented position format {y}"));
     assert!(!r.has_lead);
 }
